@@ -106,7 +106,8 @@ impl Counter {
     /// Decrement counter by 1 and return true if crossing limit.
     #[inline(always)]
     pub(crate) fn dec(&self) -> bool {
-        self.counter.fetch_sub(1, Ordering::Relaxed) == self.limit
+        // the counter starts at 1, so a worker at its limit holds `limit + 1`
+        self.counter.fetch_sub(1, Ordering::Relaxed) == self.limit + 1
     }
 
     pub(crate) fn total(&self) -> usize {
